@@ -57,7 +57,7 @@ def _collision(a, b, i=0):
 
 def _install():
     import artap.individual as I
-    stubs.install((I, 'hash', shash))
+    stubs.install((I, 'hash', shash), (I, 'np', stubs.numpy_shim), (I, 'float', ops.sfloat))
     return I
 
 
@@ -105,6 +105,40 @@ def equality(args):
         for tag, M in (('in-place', M1), ('reassigned', M2), ('synced', M3)):
             ctx.check('hash-follows-the-current-vector(%s)' % tag, M.__hash__() != F.__hash__())
             ctx.check('equality-follows-the-current-vector(%s)' % tag, Not(M == F))
+    return body
+
+
+def containers(args):
+    """Design vectors stored as numpy arrays (object arrays of proxies / float arrays in replays), each point used in
+    MORE THAN ONE comparison: every verdict must be the one for the ORIGINAL coordinates, a comparison must not write
+    into its operands, and the hash must still follow the (unchanged) vector afterwards."""
+    n = args['n']
+    I = _install()
+    import numpy as np
+
+    def body(ctx):
+        I.Individual.counter = 0
+        a = [ctx.real('a%d' % i) for i in range(n)]
+        b = [ctx.real('b%d' % i) for i in range(n)]
+        c = [ctx.real('c%d' % i) for i in range(n)]
+        mk = lambda v: I.Individual(np.array(v, dtype=object if ctx.symbolic else float))
+        A, B, C, A2 = mk(a), mk(b), mk(c), mk(a)
+        h0 = A.__hash__()
+        r1 = (A == B)
+        r2 = (A == C)
+        r3 = (B == A)
+        r4 = (A == A2)
+        ctx.output('eq', [bool(r1), bool(r2), bool(r3), bool(r4)])
+        ctx.check('first-comparison', Not(Iff(r1, _close(a, b))))
+        ctx.check('second-comparison-of-an-already-compared-point', Not(Iff(r2, _close(a, c))))
+        ctx.check('swapped-comparison-afterwards', Not(Iff(r3, _close(a, b))))
+        ctx.check('equal-to-a-twin-after-comparisons', Not(r4))
+        ctx.check('comparison-leaves-its-operands-untouched',
+                  Or(*[ops.differs(x, y, 0.0) for P, o in ((A, a), (B, b), (C, c), (A2, a)) for x, y in zip(list(P.vector), o)]))
+        ctx.check('hash-unchanged-by-comparisons', A.__hash__() != h0)
+        lst = [B, C]
+        res = A in lst
+        ctx.check('membership-after-comparisons', Not(Iff(res, Or(_close(a, b), _close(a, c)))))
     return body
 
 
@@ -172,6 +206,9 @@ def configs(tier):
                 continue
             out.append({'name': 'list-n%d-k%d' % (n, k), 'task': 'membership', 'args': {'n': n, 'k': k},
                         'weight': 4 ** k, 'split': 32 if k >= 3 else None, 'engine': {'validate': 50, 'margin': 1e-12}})
+    for n in ((1, 2) if tier == 'quick' else (1, 2, 3)):
+        out.append({'name': 'containers-ndarray-n%d' % n, 'task': 'containers', 'args': {'n': n}, 'weight': 4 ** n,
+                    'split': 32 if n >= 3 else None, 'engine': {'validate': 50, 'margin': 1e-12}})
     if tier == 'thorough':
         out.append({'name': 'crosshair-second-opinion', 'task': 'crosshair', 'args': {'functions': ['eq_all_coordinates_n2']}, 'weight': 1000,
                     'engine': {'validate': 0, 'path_timeout_s': 900}})
